@@ -42,7 +42,12 @@ type Pred struct {
 	Src    string
 }
 
+type Immutable struct {
+	Pkg, Kind, Name, Where string
+}
+
 type ContractSet struct {
+	Immutables []Immutable
 	Funcs  map[string]*Contract
 	Preds  map[string]*Pred
 	Errors []string
@@ -205,6 +210,10 @@ func (cs *ContractSet) loadFile(path, repo string) {
 				cs.errf("%s: duplicate contract for %s", at, cur.Key)
 			}
 			cs.Funcs[cur.Key] = cur
+		case "immutable":
+			flush()
+			k, nm := splitWord(rest)
+			cs.Immutables = append(cs.Immutables, Immutable{pkg, k, nm, at})
 		case "pred":
 			flush()
 			m := regexp.MustCompile(`^(\w+)\s*\(([^)]*)\)\s*=\s*(.*)$`).FindStringSubmatch(rest)
